@@ -1,13 +1,22 @@
 import PwVerif.Model.ExecFin
+import PwVerif.Model.ExecFine
 import PwVerif.Model.Proto
-open PwVerif PwVerif.Exec PwVerif.Proto
+open PwVerif PwVerif.Exec PwVerif.Proto PwVerif.ExecFine
 
 /-- scheduled completion: after `at` emission events, or at an idle point -/
 inductive Tok | at (h k : Nat) | sleep (k : Nat)
 
+/-- fine schedule token: at main-thread schedule point `p` (or late = after the run returned) the
+first / second half of the callback of `k` runs -/
+structure FTok where
+  p : Option Nat
+  first : Bool
+  k : Nat
+
 structure DSt where
   f : FinDag
   sched : List Tok
+  fsched : List FTok := []
 
 def DSt.init : DSt :=
   { f := { n := 0, slots := [], down := [], starters := [], onExec := [], fails := [], rank := [] }, sched := [] }
@@ -81,6 +90,82 @@ def report (tag : String) (f : FinDag) (s : S) (fin : String) : List String :=
     s!"{tag} errs {showNats s.errs}",
     s!"{tag} running {showNats s.running}" ]
 
+/-- apply all tokens scheduled for point `p` -/
+def applyToks (cfg : Cfg) (fc : FCfg) (d : Dag) (f : F) (p : Option Nat) :
+    List FTok → Option (F × List FTok × Nat)
+  | [] => some (f, [], 0)
+  | t :: ts =>
+    if t.p = p then
+      match stepF cfg fc d f (if t.first then .cbFirst t.k else .cbSecond t.k) with
+      | some f' => (applyToks cfg fc d f' p ts).map fun (g, r, n) => (g, r, n + 1)
+      | none => none
+    else some (f, t :: ts, 0)
+
+/-- the canonical main thread (start all starters, drain the queue, idle, exit) with the recorded
+callback halves injected at the main thread's schedule points: after every emission made on the main
+thread (a local child completed) and at every idle `sleep` -/
+def driveF (cfg : Cfg) (fc : FCfg) (d : Dag) : Nat → F → List FTok → Nat → F × String
+  | 0, f, _, _ => (f, "fuel")
+  | fuel + 1, f, toks, p =>
+    let point (f' : F) (grew : Bool) : F × String :=
+      if grew then
+        match applyToks cfg fc d f' (some p) toks with
+        | some (g, rest, _) => driveF cfg fc d fuel g rest (p + 1)
+        | none => (f', s!"stuck-token-at-{p}")
+      else driveF cfg fc d fuel f' toks p
+    match f.core.phase with
+    | .exited =>
+      match applyToks cfg fc d f none toks with
+      | some (g, [], _) => (g, "exited")
+      | some (g, _, _) => (g, "tokens-left")
+      | none => (f, "stuck-late-token")
+    | .aborted => (f, "aborted")
+    | .run (_ :: _) =>
+      match stepF cfg fc d f .start with
+      | some f' => point f' (f'.core.doneLog.length > f.core.doneLog.length)
+      | none => (f, "stuck-start")
+    | .run [] =>
+      match f.core.queue with
+      | _ :: _ =>
+        match stepF cfg fc d f .deliver with
+        | some f' => point f' (f'.core.doneLog.length > f.core.doneLog.length)
+        | none => (f, "stuck-deliver")
+      | [] =>
+        match visRunning fc f with
+        | [] =>
+          match stepF cfg fc d f .exit with
+          | some f' => driveF cfg fc d fuel f' toks p
+          | none => (f, "stuck-exit")
+        | _ :: _ =>
+          match applyToks cfg fc d f (some p) toks with
+          | some (g, rest, n) => if n = 0 then (f, s!"stuck-idle-at-{p}") else driveF cfg fc d fuel g rest (p + 1)
+          | none => (f, s!"stuck-token-at-{p}")
+
+def sortNats (l : List Nat) : List Nat := (l.toArray.qsort (· < ·)).toList
+
+def reportF (tag : String) (fd : FinDag) (fc : FCfg) (f : F) (fin : String) : List String :=
+  let ids := List.range fd.n
+  let s := f.core
+  [ s!"{tag} end {fin}",
+    s!"{tag} exec {showNats s.execLog}",
+    s!"{tag} doneset {showNats (sortNats s.doneLog)}",
+    s!"{tag} st " ++ " ".intercalate (ids.map fun i => s!"{i}:{showSt (s.st i)}"),
+    s!"{tag} calls " ++ " ".intercalate (ids.map fun i => s!"{i}:{s.calls i}"),
+    s!"{tag} out " ++ " ".intercalate (ids.map fun i => s!"{i}:{showVal (s.out i)}"),
+    s!"{tag} running {showNats (sortNats (visRunning fc f))}",
+    s!"{tag} late {showNats f.late}" ]
+
+def parseFTok (w : String) : Option FTok :=
+  match w.splitOn ":" with
+  | [p, h, k] =>
+    let first? := if h = "F" then some true else if h = "T" then some false else none
+    match first?, k.toNat? with
+    | some b, some k =>
+      if p = "L" then some { p := none, first := b, k := k }
+      else p.toNat?.map fun p => { p := some p, first := b, k := k }
+    | _, _ => none
+  | _ => none
+
 def parseTok (w : String) : Option Tok :=
   match w.splitOn ":" with
   | ["s", k] => k.toNat?.map Tok.sleep
@@ -117,6 +202,16 @@ def step' (s : DSt) (ws : List String) : DSt × List String :=
   | "sched" :: ts => match ts.mapM parseTok with
     | some ts => ({ s with sched := ts }, [])
     | none => (s, ["bad-op"])
+  | "fsched" :: ts => match ts.mapM parseFTok with
+    | some ts => ({ s with fsched := ts }, [])
+    | none => (s, ["bad-op"])
+  | ["frun"] =>
+    let d := s.f.toDag
+    let fuel := 8 * (s.f.n + 2) * (s.f.n + 2) + 32
+    (s, [s!"wf {s.f.check}"] ++ ([("Fp", FCfg.pinned), ("Fr", FCfg.repaired)].map fun (t, fc) =>
+      -- the state reported is the one at the moment the run returns; late tokens are applied after it
+      let (st, fin) := driveF Cfg.repaired fc d fuel (initF d) s.fsched 0
+      reportF t s.f fc st fin).flatten)
   | ["run"] =>
     let d := s.f.toDag
     let fuel := 4 * (s.f.n + 2) * (s.f.n + 2) + 16
